@@ -83,6 +83,15 @@ access(all) contract Conc {
         access(E1) fun k1(): Int { return self.v + 11 }
         access(E2 | F1) fun k2(): Int { return self.v + 12 }
     }
+    // container-typed fields of every container kind: the member tables of these (shared) types are built lazily on first use,
+    // by value and through references
+    access(all) struct Holder {
+        access(all) var pair: [Inner; 2]
+        access(all) var list: [Inner]
+        access(all) var table: {String: Inner}
+        access(all) var opt: [Int; 3]?
+        init(_ v: Int) { self.pair = [Inner(v), Inner(v + 1)]; self.list = [Inner(v)]; self.table = {"k": Inner(v)}; self.opt = [v, v, v] }
+    }
     access(all) event Done(n: Int, s: String, xs: [Int])
     access(all) fun mk(_ v: Int): @Res { return <- create Res(v) }
     access(all) fun done(_ n: Int) { emit Done(n: n, s: n.toString(), xs: [n, n]) }
@@ -93,7 +102,7 @@ access(all) contract Conc {
 // c36Script renders the k-th script of worker g (templates x parameters; distinct sources force their own parse + check).
 func c36Script(r *Rng, g, k int) string { return c36ScriptT(r, g, k, -1) }
 
-const c36Templates = 14
+const c36Templates = 16
 
 // c36ScriptT: tmpl >= 0 forces the template (the same random draws are consumed either way).
 func c36ScriptT(r *Rng, g, k, tmpl int) string {
@@ -227,6 +236,36 @@ access(all) fun main(): [AnyStruct] {
     let rr = &x as auth(Conc.E2) &Conc.KImpl
     return [a, b, i.f2(), i.f1(), i.f3(), d != nil, r.getType().identifier, rr.k2(), rr.inner.f1(), %d]
 }`, a, g*100+k)
+	case 14:
+		// container members THROUGH REFERENCES to fields of an imported composite (reference-specific member types)
+		return fmt.Sprintf(`import Conc from 0x1
+access(all) fun main(): [Int] {
+    let h = Conc.Holder(%d)
+    let r = &h as &Conc.Holder
+    let rp = r.pair.reverse()
+    let rl = r.list.reverse()
+    let first: &Conc.Inner = rp[0]
+    let ks = r.table.keys
+    let m = r.pair.map(fun (x: &Conc.Inner): Int { return x.id() })
+    let f = r.list.filter(view fun (x: &Conc.Inner): Bool { return true })
+    let vs = r.pair.toVariableSized()
+    return [r.pair.length, rl.length, first.id(), ks.length, m[1], f.length, vs.length, r.opt?.length ?? 0, %d]
+}`, a, g*100+k)
+	case 15:
+		// the same members BY VALUE
+		return fmt.Sprintf(`import Conc from 0x1
+access(all) fun main(): [Int] {
+    let h = Conc.Holder(%d)
+    let rp: [Conc.Inner; 2] = h.pair.reverse()
+    let rl: [Conc.Inner] = h.list.reverse()
+    let first: Conc.Inner = rp[0]
+    let m = h.pair.map(fun (x: Conc.Inner): Int { return x.id() })
+    let f: [Conc.Inner] = h.list.filter(view fun (x: Conc.Inner): Bool { return true })
+    let vs: [Conc.Inner] = h.pair.toVariableSized()
+    let vals: [Conc.Inner] = h.table.values
+    let o: [Int; 3] = h.opt!.reverse()
+    return [h.pair.length, rl.length, first.id(), m[1], f.length, vs.length, vals.length, o[0], %d]
+}`, b, g*100+k)
 	case 13:
 		// resources moved in branches, loops and optional bindings (the checker's per-branch resource tracking), optional chaining
 		// and other metered type constructions inside conditionally evaluated code
